@@ -74,6 +74,12 @@ SYSTEM_FLAG_MAP = {
 
 REV_SYSTEM_FLAG_MAP = {v: k for k, v in SYSTEM_FLAG_MAP.items()}
 
+# Keyword flags are kept as MH sequences under their own name. The names the
+# system flags are kept under (and MH's own `unseen`) can therefore not be
+# used as keywords: `STORE 1 +FLAGS (replied)` would set `\Answered`.
+#
+RESERVED_KEYWORDS = frozenset(SYSTEM_FLAG_MAP) | {"unseen"}
+
 # RFC 6154 SPECIAL-USE mailbox attributes. Maps folder names (matching
 # as_email_service conventions) to their IMAP special-use attribute.
 #
